@@ -1,0 +1,77 @@
+//go:build verif
+
+// Contracts for the acv verifier (/verif). Comment-only file: no executable code.
+
+package grpc_api
+
+// When the identity comes from the TLS connection, every RPC overrides the client id named in the request with
+// the connection's id before the inner service sees it, and nothing is forwarded when the id cannot be extracted.
+// The structural obligation makes sure that every method of DecryptService is declared on the wrapper itself
+// (a method promoted from an embedded Unimplemented*Server would bypass the override).
+//@ structural tls-wrapper-overrides-every-rpc props C02 : methods-declared TLSDecryptServiceWrapper DecryptService
+
+//@ func (wrapper *TLSDecryptServiceWrapper) Encrypt(ctx context.Context, request *EncryptRequest) (resp *EncryptResponse, err error)
+//@   props C02
+//@   ensures no-identity-no-call: ret(getClientID)[1] != nil ==> !called(DecryptService.Encrypt) && err != nil
+//@   at call getClientID : assert arg[0] == ctx && arg[1] == wrapper.tlsClientIDExtractor
+//@   at call DecryptService.Encrypt : assert recv == wrapper.decryptor && arg[1] == request && sameslice(arg[1].ClientId, ret(getClientID)[0]) && ret(getClientID)[1] == nil
+
+//@ func (wrapper *TLSDecryptServiceWrapper) Decrypt(ctx context.Context, request *DecryptRequest) (resp *DecryptResponse, err error)
+//@   props C02
+//@   ensures no-identity-no-call: ret(getClientID)[1] != nil ==> !called(DecryptService.Decrypt) && err != nil
+//@   at call getClientID : assert arg[0] == ctx && arg[1] == wrapper.tlsClientIDExtractor
+//@   at call DecryptService.Decrypt : assert recv == wrapper.decryptor && arg[1] == request && sameslice(arg[1].ClientId, ret(getClientID)[0]) && ret(getClientID)[1] == nil
+
+//@ func (wrapper *TLSDecryptServiceWrapper) Tokenize(ctx context.Context, request *TokenizeRequest) (resp *TokenizeResponse, err error)
+//@   props C02
+//@   ensures no-identity-no-call: ret(getClientID)[1] != nil ==> !called(DecryptService.Tokenize) && err != nil
+//@   at call getClientID : assert arg[0] == ctx && arg[1] == wrapper.tlsClientIDExtractor
+//@   at call DecryptService.Tokenize : assert recv == wrapper.decryptor && arg[1] == request && sameslice(arg[1].ClientId, ret(getClientID)[0]) && ret(getClientID)[1] == nil
+
+//@ func (wrapper *TLSDecryptServiceWrapper) Detokenize(ctx context.Context, request *TokenizeRequest) (resp *TokenizeResponse, err error)
+//@   props C02
+//@   ensures no-identity-no-call: ret(getClientID)[1] != nil ==> !called(DecryptService.Detokenize) && err != nil
+//@   at call getClientID : assert arg[0] == ctx && arg[1] == wrapper.tlsClientIDExtractor
+//@   at call DecryptService.Detokenize : assert recv == wrapper.decryptor && arg[1] == request && sameslice(arg[1].ClientId, ret(getClientID)[0]) && ret(getClientID)[1] == nil
+
+//@ func (wrapper *TLSDecryptServiceWrapper) DecryptSym(ctx context.Context, request *DecryptSymRequest) (resp *DecryptSymResponse, err error)
+//@   props C02
+//@   ensures no-identity-no-call: ret(getClientID)[1] != nil ==> !called(DecryptService.DecryptSym) && err != nil
+//@   at call getClientID : assert arg[0] == ctx && arg[1] == wrapper.tlsClientIDExtractor
+//@   at call DecryptService.DecryptSym : assert recv == wrapper.decryptor && arg[1] == request && sameslice(arg[1].ClientId, ret(getClientID)[0]) && ret(getClientID)[1] == nil
+
+//@ func (wrapper *TLSDecryptServiceWrapper) EncryptSym(ctx context.Context, request *EncryptSymRequest) (resp *EncryptSymResponse, err error)
+//@   props C02
+//@   ensures no-identity-no-call: ret(getClientID)[1] != nil ==> !called(DecryptService.EncryptSym) && err != nil
+//@   at call getClientID : assert arg[0] == ctx && arg[1] == wrapper.tlsClientIDExtractor
+//@   at call DecryptService.EncryptSym : assert recv == wrapper.decryptor && arg[1] == request && sameslice(arg[1].ClientId, ret(getClientID)[0]) && ret(getClientID)[1] == nil
+
+//@ func (wrapper *TLSDecryptServiceWrapper) EncryptSearchable(ctx context.Context, request *SearchableEncryptionRequest) (resp *SearchableEncryptionResponse, err error)
+//@   props C02
+//@   ensures no-identity-no-call: ret(getClientID)[1] != nil ==> !called(DecryptService.EncryptSearchable) && err != nil
+//@   at call getClientID : assert arg[0] == ctx && arg[1] == wrapper.tlsClientIDExtractor
+//@   at call DecryptService.EncryptSearchable : assert recv == wrapper.decryptor && arg[1] == request && sameslice(arg[1].ClientId, ret(getClientID)[0]) && ret(getClientID)[1] == nil
+
+//@ func (wrapper *TLSDecryptServiceWrapper) DecryptSearchable(ctx context.Context, request *SearchableDecryptionRequest) (resp *SearchableDecryptionResponse, err error)
+//@   props C02
+//@   ensures no-identity-no-call: ret(getClientID)[1] != nil ==> !called(DecryptService.DecryptSearchable) && err != nil
+//@   at call getClientID : assert arg[0] == ctx && arg[1] == wrapper.tlsClientIDExtractor
+//@   at call DecryptService.DecryptSearchable : assert recv == wrapper.decryptor && arg[1] == request && sameslice(arg[1].ClientId, ret(getClientID)[0]) && ret(getClientID)[1] == nil
+
+//@ func (wrapper *TLSDecryptServiceWrapper) EncryptSymSearchable(ctx context.Context, request *SearchableSymEncryptionRequest) (resp *SearchableSymEncryptionResponse, err error)
+//@   props C02
+//@   ensures no-identity-no-call: ret(getClientID)[1] != nil ==> !called(DecryptService.EncryptSymSearchable) && err != nil
+//@   at call getClientID : assert arg[0] == ctx && arg[1] == wrapper.tlsClientIDExtractor
+//@   at call DecryptService.EncryptSymSearchable : assert recv == wrapper.decryptor && arg[1] == request && sameslice(arg[1].ClientId, ret(getClientID)[0]) && ret(getClientID)[1] == nil
+
+//@ func (wrapper *TLSDecryptServiceWrapper) DecryptSymSearchable(ctx context.Context, request *SearchableSymDecryptionRequest) (resp *SearchableSymDecryptionResponse, err error)
+//@   props C02
+//@   ensures no-identity-no-call: ret(getClientID)[1] != nil ==> !called(DecryptService.DecryptSymSearchable) && err != nil
+//@   at call getClientID : assert arg[0] == ctx && arg[1] == wrapper.tlsClientIDExtractor
+//@   at call DecryptService.DecryptSymSearchable : assert recv == wrapper.decryptor && arg[1] == request && sameslice(arg[1].ClientId, ret(getClientID)[0]) && ret(getClientID)[1] == nil
+
+//@ func (wrapper *TLSDecryptServiceWrapper) GenerateQueryHash(ctx context.Context, request *QueryHashRequest) (resp *QueryHashResponse, err error)
+//@   props C02
+//@   ensures no-identity-no-call: ret(getClientID)[1] != nil ==> !called(DecryptService.GenerateQueryHash) && err != nil
+//@   at call getClientID : assert arg[0] == ctx && arg[1] == wrapper.tlsClientIDExtractor
+//@   at call DecryptService.GenerateQueryHash : assert recv == wrapper.decryptor && arg[1] == request && sameslice(arg[1].ClientId, ret(getClientID)[0]) && ret(getClientID)[1] == nil
